@@ -134,6 +134,8 @@ class Scenario(object):
             ops.append(['add_derived', 's'])
         if 's2' not in keys and 's' in keys:
             ops.append(['add_derived', 's2'])
+        if self.dup_label and 'sx' not in keys and 'y' in keys:
+            ops.append(['add_derived', 'sx'])      # a DERIVED component that is also labelled 'x'
         for k in ('x', 'z', 's'):
             if k in keys:
                 ops.append(['remove', k])
@@ -227,15 +229,20 @@ class Scenario(object):
                 except ValueError:
                     pass
             elif k == 'add_derived':
+                label = op[1]
                 if op[1] == 's':
                     link = w.cids['x'] + w.cids['y']
                     deps = ['x', 'y']
+                elif op[1] == 'sx':
+                    link = w.cids['y'] * 3
+                    deps = ['y']
+                    label = 'x'
                 else:
                     link = w.cids['s'] * 2
                     deps = ['s']
-                dcomp = d.add_component_link(link, op[1])
+                dcomp = d.add_component_link(link, label)
                 w.cids[op[1]] = dcomp.link.get_to_id()
-                w.m.append(dict(key=op[1], label=op[1], kind='derived', deps=deps))
+                w.m.append(dict(key=op[1], label=label, kind='derived', deps=deps))
                 self._expect_add(w, op[1])
             elif k == 'remove':
                 d.remove_component(w.cids[op[1]])
